@@ -11,6 +11,9 @@ import (
 	"time"
 
 	kafka "github.com/segmentio/kafka-go"
+	"github.com/segmentio/kafka-go/protocol"
+	"github.com/segmentio/kafka-go/protocol/createtopics"
+	metadataapi "github.com/segmentio/kafka-go/protocol/metadata"
 
 	"sync/atomic"
 
@@ -491,7 +494,37 @@ func c09Transport(k *core.Case) {
 	if r.Chance(1, 3) {
 		silentAPI = fakecluster.KApiVersions // the connection setup itself never completes
 	}
+	// refresh-silent: the broker answers the request itself and then stays silent on the forced
+	// metadata refresh that the Transport waits for after creating topics (CreateTopics, Metadata
+	// with AllowAutoTopicCreation): the caller is blocked inside RoundTrip on the Transport's own
+	// follow-up exchange
+	refreshSilent := r.Chance(1, 4)
+	var answered int32
+	if refreshSilent {
+		if r.Bool() {
+			op = trOp{fakecluster.KCreateTopics, "CreateTopics+refresh", func() protocol.Message {
+				return &createtopics.Request{TimeoutMs: 100, Topics: []createtopics.RequestTopic{{Name: "nt", NumPartitions: 1, ReplicationFactor: 1}}}
+			}}
+		} else {
+			op = trOp{fakecluster.KMetadata, "Metadata(auto-create)+refresh", func() protocol.Message {
+				return &metadataapi.Request{TopicNames: []string{core.Pick(r, "absent", connTopic)}, AllowAutoTopicCreation: true}
+			}}
+		}
+		silentAPI = fakecluster.KMetadata
+	}
 	env.Cluster.Script = func(rc *fakecluster.ReqCtx) *fakecluster.Action {
+		if refreshSilent {
+			if rc.Ev.ClientID != "verif-c09" {
+				return nil
+			}
+			if rc.Ev.API == fakecluster.KMetadata && atomic.LoadInt32(&answered) == 1 {
+				return &fakecluster.Action{Kind: fakecluster.ActIgnore}
+			}
+			if rc.Ev.API == op.API && (op.API != fakecluster.KMetadata || rc.Body["AllowAutoTopicCreation"] == true) {
+				atomic.StoreInt32(&answered, 1)
+			}
+			return nil
+		}
 		if rc.Ev.API == silentAPI && rc.Ev.ClientID == "verif-c09" {
 			return &fakecluster.Action{Kind: fakecluster.ActIgnore}
 		}
@@ -512,6 +545,12 @@ func c09Transport(k *core.Case) {
 		_, err := tr.RoundTrip(ctx, kafka.TCP("b1:9092"), op.Req())
 		done <- err
 	}()
+	if refreshSilent {
+		// let the request be answered first, so that the call is blocked in the refresh
+		for i := 0; i < 4000 && atomic.LoadInt32(&answered) == 0; i++ {
+			time.Sleep(50 * time.Microsecond)
+		}
+	}
 	if mode == "cancel" {
 		time.Sleep(time.Duration(r.Range(2, 20)) * time.Millisecond)
 		cancel()
